@@ -39,8 +39,9 @@ def r_const(value):
 
 
 def _replicas_of(names, ens):
-    # mirrors the documented grouping: chains 'ens|...' (a bare chain named 'ens' is its own group)
-    return [m for m in names if m.startswith(ens + '|')]
+    # the statement's grouping: chains belong to the ensemble named by the text before '|'
+    # (so a bare chain 'ens' is a replica of ensemble 'ens' like 'ens|r2')
+    return [m for m in names if m.split('|')[0] == ens]
 
 
 def r_propagate(val, grads, ins):
